@@ -36,6 +36,9 @@ def judge_pairs(c, K, G, ev, vecs, label, k_req):
     Kd, Gd = eig.dense(K), eig.dense(G)
     n = Kd.shape[0]
     act = eig.active_set(Kd)
+    if act.size == 0:
+        c.reject('outside the domain: no active amplitudes')
+        return np.zeros(0), act
     wK = np.linalg.eigvalsh(Kd[np.ix_(act, act)])
     if wK.min() <= 1e-12 * wK.max():
         c.reject('outside the domain: K is not positive definite on its active amplitudes (unrestrained model)')
